@@ -90,10 +90,16 @@ func genDetCase(c *core.Ctx, i int) detCase {
 		failKeys := detKeyFamilies[r.Intn(len(detKeyFamilies))]
 		var pairs []string
 		for k := 0; k < n; k++ {
-			pairs = append(pairs, fmt.Sprintf("%s: %s", failKeys[k], fails[k]))
+			// the failing expression is the value itself or sits inside a literal that is the value
+			wrap := []string{"%s", "%s", "[\"a\", %s]", "[%s, \"b\"]", "{z: %s}", "[[%s]]", "[1, {q: %s}]"}[r.Intn(7)]
+			pairs = append(pairs, fmt.Sprintf("%s: "+wrap, failKeys[k], fails[k]))
 		}
 		if r.Intn(2) == 0 {
 			pairs = append(pairs, "ok: 1")
+		}
+		if r.Intn(2) == 0 {
+			pairs = append(pairs, "name: \"Ann\"", "list: [1, 2]")
+			r.Shuffle(len(pairs), func(a, b int) { pairs[a], pairs[b] = pairs[b], pairs[a] })
 		}
 		src := "line1\n{{ {" + strings.Join(pairs, ",\n ") + "} }}"
 		return detCase{map[string]any{"source": src}, func(c *core.Ctx) string { return observe(textwire.EvaluateString(src, nil)) }}
@@ -141,8 +147,17 @@ func genDetCase(c *core.Ctx, i int) detCase {
 		return treeDetCase(files, "page")
 	case 4: // 2..4 undefined inserts, duplicate inserts
 		var inserts []string
-		names := []string{"zeta", "alpha", "Mid", "beta"}
+		names := []string{"zeta", "alpha", "Mid", "beta", "", " ", "0", "Zeta"}
 		r.Shuffle(len(names), func(a, b int) { names[a], names[b] = names[b], names[a] })
+		if r.Intn(2) == 0 {
+			// the empty name is among the first two
+			for k, n := range names {
+				if n == "" {
+					names[k], names[r.Intn(2)] = names[r.Intn(2)], names[k]
+					break
+				}
+			}
+		}
 		for k := 0; k < 2+r.Intn(3); k++ {
 			if r.Intn(2) == 0 {
 				inserts = append(inserts, fmt.Sprintf("@insert(\"%s\", %d)\n", names[k], k))
